@@ -8,6 +8,7 @@ GNext == \E c \in Clients :
    \/ FailedLogin(c) /\ H([op |-> "failed_login", c |-> c, a |-> ""])
    \/ \E k \in {"stmt", "last", "copy"} : Request(c, k) /\ H([op |-> "request", c |-> c, a |-> k])
    \/ \E h \in {"clean", "abnormal"} : Leave(c, h) /\ H([op |-> "leave", c |-> c, a |-> h])
+   \/ Refused(c) /\ H([op |-> "refused", c |-> c, a |-> ""])
 GSpec == Init /\ hist = <<>> /\ [][GNext]_gv
 Emit == (nops = MaxOps) => PrintT(<<"SCENARIO", ToJson(hist)>>)
 =============================================================================
